@@ -66,4 +66,16 @@ PROPERTIES = {
                               "Value: one required header, type in 7 x format in 7 (incl. unknown ones), declared at service or method level, value printable ASCII <= 6 (uuid additionally: any 36 characters as 8+1+4+1+4+1+4+1+12 symbolic groups, and any 37 characters)"},
         assumptions=E_ASSUMPTIONS + ["formats date-time/date/time: time.Parse is stubbed with an arbitrary result, only their dispatch is covered",
                                      "type number: reference decides only plain decimals (must pass) and strings with characters outside [-+0-9a-zA-Z._] (must fail)"]),
+    "C12": dict(G_HTTPGEN,
+                overlay={"internal/httpgen/zz_verif_c12_common.go": "harness/c12/c12_common.go",
+                         "internal/httpgen/zz_verif_c12_field.go": "harness/c12/c12_field_rules.go",
+                         "internal/httpgen/zz_verif_c12_struct.go": "harness/c12/c12_struct_rules.go",
+                         "internal/httpgen/zz_verif_c12_http.go": "harness/c12/c12_http_rules.go"},
+                harnesses=[dict(func=f, reach=["C12/%s/decided" % r, "C12/%s/imported" % r], quick=dict(budget=300, parts=4), thorough=dict(budget=1200, parts=8))
+                           for f, r in [("VerifC12Nullable", "nullable"), ("VerifC12EmptyBehavior", "empty_behavior"),
+                                        ("VerifC12TimestampFormat", "timestamp_format"), ("VerifC12BytesEncoding", "bytes_encoding"),
+                                        ("VerifC12Flatten", "flatten"), ("VerifC12Oneof", "oneof"), ("VerifC12Enum", "enum"), ("VerifC12Unwrap", "unwrap")]]
+                + [dict(func="VerifC12HTTPConfig", reach=["C12/http/decided"], quick=dict(budget=300, parts=8, flags=["-maxpaths", "200000"]), thorough=dict(budget=1500, parts=16, flags=["-maxpaths", "400000"]))],
+                bounds_text={"quick": "per rule: one message with one field of symbolic kind (quick: 9 representative kinds, thorough: all 17) x cardinality (singular/optional/repeated/map) x annotation value, plus a plain sibling; placed top-level / nested / in a non-service file of the run / in an imported file; the file set also holds one service with one POST method; both Go generators run in full (recording emission stubs)"},
+                assumptions=["cases the rule text leaves open are assumed away and listed: repeated Timestamp with timestamp_format, repeated bytes with bytes_encoding"]),
 }
